@@ -426,11 +426,10 @@ def execute(case, keep_log=False):
                     violation(p['kind'], 'subject', p, (':caseB' if sub['caseB'] else ':caseA') +
                               (':conditional-reference' if sub.get('conditional') else ''))
             # last balance == sum(position) of the same selection (case A)
-            # Only when the subject has no subquery: a subquery naming a table replaces the
-            # FROM-transformed table of the enclosing query at compile time (a deterministic
-            # composition defect in C08's territory, see DESIGN.md), so the companion - a
-            # different program - would select other rows and the comparison would blame C12.
-            if not sub['caseB'] and rows and not probs and '(SELECT' not in sub['text']:
+            # (Until fix 'subquery table leak' a subquery naming a table replaced the FROM-transformed table of the
+            # enclosing query at compile time; the companion - the same selection without the subquery targets -
+            # exposes exactly that, see DESIGN.md 8.3 F18.)
+            if not sub['caseB'] and rows and not probs:
                 comp = 'SELECT sum(position) AS s'
                 if sub.get('from'):
                     comp += ' FROM ' + sub['from']
